@@ -286,8 +286,8 @@ func oracleFault(seed int64, id int, mode string) CaseResult {
 		}
 	}
 	if res.Fail == "" {
-		if n, dump := waitGoroutines(base, 3*time.Second); n > base {
-			res.Fail = fmt.Sprintf("%d goroutines still running 3s after Close (baseline %d) after %s", n, base, res.Tags[0])
+		if n, dump := waitGoroutines(base, 8*time.Second); n > base {
+			res.Fail = fmt.Sprintf("%d goroutines still running 8s after Close (baseline %d) after %s", n, base, res.Tags[0])
 			res.Ref = trunc(dump, 1500)
 		}
 	}
@@ -407,8 +407,8 @@ func oracleCancel(seed int64, id int) CaseResult {
 	select {
 	case rr := <-done:
 		out = canonResult(rr)
-	case <-time.After(5 * time.Second):
-		res.Fail = "Exec did not return within 5s after cancellation (" + res.Tags[0] + ")"
+	case <-time.After(15 * time.Second): // generous: the machine may be loaded; a hang is a hang
+		res.Fail = "Exec did not return within 15s after cancellation (" + res.Tags[0] + ")"
 		buf := make([]byte, 1<<16)
 		res.Ref = trunc(string(buf[:runtime.Stack(buf, true)]), 2000)
 		return res
@@ -424,8 +424,8 @@ func oracleCancel(seed int64, id int) CaseResult {
 		res.Fail = fmt.Sprintf("successful result after cancellation (cancelled=%v) differs from the uncancelled result: %s", cancelled, d)
 	}
 	if res.Fail == "" {
-		if n, dump := waitGoroutines(base, 3*time.Second); n > base {
-			res.Fail = fmt.Sprintf("%d goroutines still running 3s after Close (baseline %d), %s", n, base, res.Tags[0])
+		if n, dump := waitGoroutines(base, 8*time.Second); n > base {
+			res.Fail = fmt.Sprintf("%d goroutines still running 8s after Close (baseline %d), %s", n, base, res.Tags[0])
 			res.Ref = trunc(dump, 2000)
 		}
 	}
